@@ -249,6 +249,12 @@ ADDED5 = {
  "C17": "Round 10: operators spelled through the operator module and helpers (_combine / _compare) are followed; only recognised operator triples are judged.",
  "C18": "Round 10: restoring a written configuration is the identity -- _init_from_config folded on what return_config returns gives back every attribute (C18.g).",
 }
+# round 11 (DESIGN.md 7.16); appended after ADDED5
+ADDED6 = {
+ "C11": "Round 11: in the canvas metadata of superpose nothing unpacked after 'dimensions' / 'origin' overrides them (C11.f).",
+ "C12": "Round 11: the least-squares fit is unconstrained -- no bounds / constraints on scipy.optimize.minimize (C12.b).",
+ "C18": "Round 11: the branch of write() that converts to 8 bit is selected by the image's dtype alone, not by file name or options (C18.h); def-use chains follow names by word boundary.",
+}
 GENERIC2 = " For every property: no default-argument object is modified in place, and optional parameters (default None) of the anchored modules are compared with None, never tested by truth value."
 
 NOT_YET = {}
@@ -260,7 +266,7 @@ def main():
         pid = p["id"]
         if pid in CLAIMED:
             cat, tech, text, note = CLAIMED[pid]
-            text = text + (" " + ADDED[pid] if pid in ADDED else "") + (" " + ADDED2[pid] if pid in ADDED2 else "") + (" " + ADDED3[pid] if pid in ADDED3 else "") + (" " + ADDED4[pid] if pid in ADDED4 else "") + (" " + ADDED5[pid] if pid in ADDED5 else "") + COMMON + GENERIC2 + POLICY
+            text = text + (" " + ADDED[pid] if pid in ADDED else "") + (" " + ADDED2[pid] if pid in ADDED2 else "") + (" " + ADDED3[pid] if pid in ADDED3 else "") + (" " + ADDED4[pid] if pid in ADDED4 else "") + (" " + ADDED5[pid] if pid in ADDED5 else "") + (" " + ADDED6[pid] if pid in ADDED6 else "") + COMMON + GENERIC2 + POLICY
             checks.append({
                 "property_id": pid,
                 "quick_cmd": f"./check {pid} --tier quick",
